@@ -33,8 +33,29 @@ Definition check_c12_exact (cfg : list Z) (f : bytes) (impl : list Z) : sx :=
   | _, _ => badcase
   end.
 
+(** histories of installations on one real AF_PACKET source: what the source hands out after the LAST installation is what
+    the last requested filter's field-level spec selects - earlier installations leave no trace *)
+Fixpoint last_spec (l : list sx) : option (list Z) :=
+  match l with
+  | [] => None
+  | [L x] => sx_zs x
+  | _ :: r => last_spec r
+  end.
+
+Definition check_c12_hist (specs : list sx) (f : bytes) (cap : Z) : sx :=
+  match last_spec specs with
+  | Some [ty; s; d; sp; dp] =>
+      let want := if ty =? 0 then true else if ty =? 1 then icmp_specb f else if ty =? 2 then udp_specb f
+                  else if ty =? 3 then tcp4_specb s d sp dp f else synack_specb f in
+      let cls := 16 + ty + 8 * Z.min 7 (Z.of_nat (length specs)) in
+      if Bool.eqb (nz cap) want then verdict V_OK cls [] (L []) else verdict V_SPECFAIL cls [7] (of_bool want)
+  | _ => badcase
+  end.
+
 Definition check_c12 (inp impl : sx) : sx :=
   match inp, impl with
+  | L [A 30; L specs; fr], L [A cap] =>
+      match sx_bytes fr with Some f => check_c12_hist specs f cap | None => badcase end
   | L [A 1; L cfg; fr], L im =>
       match sx_zs cfg, sx_bytes fr, sx_zs im with
       | Some cfg, Some f, Some im => check_c12_exact cfg f im
